@@ -1110,9 +1110,101 @@ def c05(m, o):
     return {"checks": checks, "violations": viol[:8]}
 
 
+def c03(m, o):
+    """metamorphic: the program with extra unadjusted stratifications vs without them, aggregated over the new strata"""
+    import impl
+    from fractions import Fraction
+    from jax import numpy as jnp
+    import random
+    p = {k: float(Fraction(v)) for k, v in (o.get("params") or {}).items()}
+    rng = random.Random(o.get("seed", 0))
+    viol, checks = [], 0
+    base, err, why = impl.build(dict(o["base_program"], obs=[]))
+    strat, err2, why2 = impl.build(dict(o["strat_program"], obs=[]))
+    if err is not None or err2 is not None:
+        return {"checks": 0, "violations": ["c03 oracle: programs do not build: %s / %s" % (why, why2)] if (err is None) != (err2 is None) else []}
+    new_keys = set(o["new_strats"])
+    bpos = {(c.name, tuple(c.strata.items())): i for i, c in enumerate(base.compartments)}
+    groups = [[] for _ in bpos]
+    for j, c in enumerate(strat.compartments):
+        key = (c.name, tuple((k, v) for k, v in c.strata.items() if k not in new_keys))
+        if key not in bpos:
+            return {"checks": 1, "violations": ["stratified compartment %s has no parent in the base model" % c]}
+        groups[bpos[key]].append(j)
+
+    def agg(v):
+        v = np.asarray(v, dtype=float)
+        return np.array([v[..., g].sum(axis=-1) for g in groups]).T if v.ndim == 2 else np.array([v[g].sum() for g in groups])
+
+    rb, rs = base.get_runner(p, jit=False), strat.get_runner(p, jit=False)
+    ns = len(strat.compartments)
+    for k in range(o.get("states", 3)):
+        xs = np.array([rng.randint(1, 400) / 4 for _ in range(ns)])
+        t = rng.randint(0, 20) / 4
+        a = rs.impl_dict["one_step"](p, t, jnp.array(xs))
+        b = rb.impl_dict["one_step"](p, t, jnp.array(agg(xs)))
+        ca, cb = agg(a.comp_rates), np.asarray(b.comp_rates, dtype=float)
+        checks += 1
+        scale = 1 + np.abs(cb).max()
+        if not o.get("strain_only") and np.abs(ca - cb).max() > 1e-9 * scale:
+            i = int(np.abs(ca - cb).argmax())
+            viol.append("t=%g: summed over the new strata the rate of %s is %.10g, unstratified %.10g" % (t, base.compartments[i], ca[i], cb[i]))
+        # flow rates summed by parent flow name (flow names are kept by stratification)
+        fa, fb = np.asarray(a.flow_rates, dtype=float), np.asarray(b.flow_rates, dtype=float)
+        for name in sorted({f.name for f in base.flows}):
+            if name.startswith("ageing_"):
+                continue
+            if o.get("strain_only") and not any(f.name == name and "Infection" in type(f).__name__ for f in base.flows):
+                continue      # under a strain stratification only the infection flows are claimed to add up
+            sa = sum(fa[i] for i, f in enumerate(strat.flows) if f.name == name)
+            sb = sum(fb[i] for i, f in enumerate(base.flows) if f.name == name)
+            checks += 1
+            if abs(sa - sb) > 1e-9 * (1 + abs(sb)):
+                viol.append("t=%g: flows named %s add up to %.10g in the stratified model, %.10g unstratified" % (t, name, sa, sb))
+    gentle = True
+    if not o.get("strain_only"):
+        # the multi-stage solvers evaluate the rates at intermediate states; the equality is claimed while
+        # those stay non-negative too (clipping does not commute with summation): replay the RK4 stages
+        h_ = float(strat.timestep)
+        r0_ = rs.impl_dict["one_step"](p)
+        f_ = rs.impl_dict["get_comp_rates"]
+        rhs_ = lambda tt, yy: np.asarray(f_(jnp.array(yy), tt, r0_.static_graph_vals, r0_.model_data), dtype=float)
+        yy = np.asarray(r0_.initial_population, dtype=float)
+        for t_ in strat.times[:-1]:
+            t_ = float(t_)
+            k1 = rhs_(t_, yy); y2 = yy + h_ / 2 * k1
+            k2 = rhs_(t_ + h_ / 2, y2); y3 = yy + h_ / 2 * k2
+            k3 = rhs_(t_ + h_ / 2, y3); y4 = yy + h_ * k3
+            k4 = rhs_(t_ + h_, y4)
+            if min(y2.min(), y3.min(), y4.min(), (yy + 1.5 * h_ * k1).min()) < 0:
+                gentle = False
+            yy = yy + h_ / 6 * (k1 + 2 * k2 + 2 * k3 + k4)
+
+    for solver, tol in (() if o.get("strain_only") else (("euler", 1e-9), ("rk4", 1e-9), ("solve_ivp", 5e-3))):
+        base.run(p, solver=solver, jit=False, rebuild=True)
+        strat.run(p, solver=solver, jit=False, rebuild=True)
+        ob, os_ = np.asarray(base.outputs, dtype=float), np.asarray(strat.outputs, dtype=float)
+        if not (np.isfinite(ob).all() and np.isfinite(os_).all()) or (os_ < -1e-9).any():
+            continue      # the equality is claimed while the stratified states stay non-negative
+        if solver != "euler" and not gentle:
+            continue
+
+        checks += 1
+        d = np.abs(agg(os_) - ob).max()
+        if d > tol * (1 + np.abs(ob).max()):
+            viol.append("%s: summed stratified outputs differ from the unstratified outputs by %.6g" % (solver, d))
+        for k_, v in base.derived_outputs.items():
+            if k_ in strat.derived_outputs:
+                checks += 1
+                dd = np.abs(np.asarray(v) - np.asarray(strat.derived_outputs[k_])).max()
+                if dd > tol * (1 + np.abs(np.asarray(v)).max()):
+                    viol.append("%s: derived output %s differs by %.6g between the stratified and unstratified model" % (solver, k_, dd))
+    return {"checks": checks, "violations": viol[:10]}
+
+
 ORACLES = {"c01": c01, "c02": c02, "c18": c18}
 MODEL_ORACLES = {"c02_traj": c02_traj, "c13": c13, "c12": c12, "c12_dates": c12_dates,
-                 "c07": c07, "c07_closed": c07_closed, "c16": c16, "c14": c14, "c08": c08, "c09": c09, "c10": c10, "c04": c04, "c18_traj": c18_traj, "c06": c06, "c05": c05}
+                 "c07": c07, "c07_closed": c07_closed, "c16": c16, "c14": c14, "c08": c08, "c09": c09, "c10": c10, "c04": c04, "c18_traj": c18_traj, "c06": c06, "c05": c05, "c03": c03}
 
 
 def run_oracle(m, o):
